@@ -81,9 +81,11 @@ pub struct SrvOpts {
     pub max_len: i32,
     pub expiry: u64,
     pub gated: bool,
+    /// one idle listen()/stop cycle on the same Listener before the cycle under test
+    pub warmup: bool,
 }
 impl Default for SrvOpts {
-    fn default() -> Self { SrvOpts { proxy: None, limiter: None, timeout: Duration::from_secs(3), secret: None, max_len: 10_000, expiry: 21_600, gated: false } }
+    fn default() -> Self { SrvOpts { proxy: None, limiter: None, timeout: Duration::from_secs(3), secret: None, max_len: 10_000, expiry: 21_600, gated: false, warmup: false } }
 }
 
 type L = Listener<LStatus, LDisc, LFilt, LStrat, LAuth, LLoc>;
@@ -151,6 +153,13 @@ impl Srv {
             let rt = tokio::runtime::Builder::new_current_thread().enable_all().build().unwrap();
             rt.block_on(async move {
                 let mut l = build_listener(&o2, &seen2, &gate2);
+                if o2.warmup {
+                    // an earlier cycle of the same Listener value: started, stopped while idle
+                    let first = CancellationToken::new();
+                    let f2 = first.clone();
+                    tokio::spawn(async move { tokio::time::sleep(Duration::from_millis(30)).await; f2.cancel(); });
+                    let _ = l.listen(("127.0.0.1", 0), first).await;
+                }
                 let _ = l.listen(("127.0.0.1", port), stop2).await;
                 *ret2.lock().unwrap() = Some(Instant::now());
             });
@@ -830,13 +839,16 @@ const C17_TIMEOUT_MS: u64 = 2000;
 
 fn c17_case(req: &str) -> Case {
     if req.starts_with("c17.race") { return c17_race(req); }
+    if req.starts_with("c17.app") { return c17_app(req); }
     let late = kvn(req, "late") as usize;
     let st = kvs(req, "stages").unwrap();
     let stages: Vec<String> = if st == "-" { vec![] } else { st.split(',').map(String::from).collect() };
     let open_after = kvn(req, "open_after");
     let timeout_ms = kvs(req, "timeout").and_then(|s| s.parse().ok()).unwrap_or(C17_TIMEOUT_MS);
+    let proxy = kvs(req, "proxy").as_deref() == Some("1");
+    let restart = kvs(req, "restart").as_deref() == Some("1");
     rt().block_on(async {
-        let srv = Srv::start(&SrvOpts { timeout: Duration::from_millis(timeout_ms), gated: true, secret: Some(b"s3cret".to_vec()), ..Default::default() });
+        let srv = Srv::start(&SrvOpts { proxy: if proxy { Some((true, true)) } else { None }, warmup: restart, timeout: Duration::from_millis(timeout_ms), gated: true, secret: Some(b"s3cret".to_vec()), ..Default::default() });
         let ready = Arc::new(Semaphore::new(0));
         let go = Arc::new(Semaphore::new(0));
         let mut tasks = vec![];
@@ -845,7 +857,10 @@ fn c17_case(req: &str) -> Case {
             tasks.push(tokio::spawn(async move {
                 let mut c = Cli::connect(port, None).await.expect("connect");
                 let long = Duration::from_millis(3 * timeout_ms);
+                if proxy && s != "pre-header" && s != "accepted" { c.raw(&header_menu(0)).await; }
                 match s.as_str() {
+                    // accepted, its PROXY header still outstanding when the stop is requested; then it cooperates
+                    "pre-header" => { ready.add_permits(1); go.acquire().await.unwrap().forget(); if proxy { c.raw(&header_menu(0)).await; } let free = Arc::new(Semaphore::new(1)); let r = c.login_hold(2, None, Stage::Transferred, long, Some((Stage::Configuration, Arc::new(Semaphore::new(0)), free))).await; (true, r == Stage::Transferred, Some(Instant::now())) }
                     // connected, says nothing: ends by the connection timeout
                     "accepted" => { ready.add_permits(1); let t = c.wait_close(long).await; (false, false, t.map(|_| Instant::now())) }
                     // stops after Login Start until the stop was requested, then cooperates
@@ -864,7 +879,7 @@ fn c17_case(req: &str) -> Case {
         tokio::time::sleep(Duration::from_millis(100)).await;
         let mut late_served = 0;
         for _ in 0..late {
-            if let Ok(mut c) = Cli::connect(srv.port, None).await { if c.status(Duration::from_millis(300)).await.is_some() { late_served += 1; } }
+            if let Ok(mut c) = Cli::connect(srv.port, None).await { if proxy { c.raw(&header_menu(1)).await; } if c.status(Duration::from_millis(300)).await.is_some() { late_served += 1; } }
         }
         let returned_early_probe = srv.returned_at();
         if open_after > 0 { tokio::time::sleep(Duration::from_millis(open_after)).await; }
@@ -887,8 +902,8 @@ fn c17_case(req: &str) -> Case {
         if early { why.push("listen() returned while in-flight sessions were still running".into()); }
         if ret.is_none() { why.push(format!("listen() had not returned {} ms after the stop request", timeout_ms + 1500)); }
         let observed = format!("late={late_served} early_return={} returned={}", u8::from(early), u8::from(ret.is_some()));
-        let request = format!("c17.run inflight={} late={late} stages={st} open_after={open_after} timeout={timeout_ms}", stages.len());
-        Case { request, observed, oracle: if why.is_empty() { None } else { Some(why.join("; ")) }, class: format!("inflight={} late={} backend={}", stages.len().min(3), late.min(2), if open_after > 0 { "slow" } else { "prompt" }) }
+        let request = format!("c17.run inflight={} late={late} stages={st} open_after={open_after} timeout={timeout_ms} proxy={} restart={}", stages.len(), u8::from(proxy), u8::from(restart));
+        Case { request, observed, oracle: if why.is_empty() { None } else { Some(why.join("; ")) }, class: format!("inflight={} late={} backend={} proxy={} restart={}", stages.len().min(3), late.min(2), if open_after > 0 { "slow" } else { "prompt" }, u8::from(proxy), u8::from(restart)) }
     })
 }
 
@@ -931,6 +946,58 @@ fn c17_race(req: &str) -> Case {
         class: "race:stop-then-arrive".into() }
 }
 
+/// `passage::start` run the way `main` runs it (own runtime, dropped when start returns), stopped by a real SIGINT
+/// while a login is in flight; the session must still get its Transfer and start() must return only afterwards
+fn c17_app(_req: &str) -> Case {
+    let returned: Arc<Mutex<Option<Instant>>> = Arc::new(Mutex::new(None));
+    let mut cfg = app_config_t(free_port(), 10_000, 21_600, Some("s3cret"), 3, None, None, true);
+    let mut port = 0;
+    for _ in 0..4 {
+        let c2 = cfg.clone();
+        let r2 = returned.clone();
+        let p: u16 = cfg.address.rsplit(':').next().unwrap().parse().unwrap();
+        std::thread::spawn(move || {
+            let rt = tokio::runtime::Builder::new_current_thread().enable_all().build().unwrap();
+            let _ = rt.block_on(passage::start(c2)).map_err(|e| eprintln!("start failed: {e}"));
+            *r2.lock().unwrap() = Some(Instant::now());
+            rt.shutdown_timeout(Duration::from_millis(0));
+        });
+        if wait_listening(p) { port = p; break; }
+        cfg.address = format!("127.0.0.1:{}", free_port());
+    }
+    assert!(port != 0, "the application did not come up");
+    rt().block_on(async {
+        let ready = Arc::new(Semaphore::new(0));
+        let go = Arc::new(Semaphore::new(0));
+        let (r2, g2) = (ready.clone(), go.clone());
+        let task = tokio::spawn(async move {
+            let mut c = Cli::connect(port, None).await.expect("connect");
+            let st = c.login_hold(2, None, Stage::Transferred, Duration::from_millis(2500), Some((Stage::LoginStart, r2, g2))).await;
+            (st, Instant::now())
+        });
+        let is_ready = tokio::time::timeout(Duration::from_millis(1500), ready.acquire()).await.is_ok();
+        tokio::time::sleep(Duration::from_millis(50)).await;
+        // SAFETY: raising a signal for which the application has installed its ctrl-c handler
+        unsafe { libc::raise(libc::SIGINT); }
+        let t_stop = Instant::now();
+        tokio::time::sleep(Duration::from_millis(300)).await;
+        let early = returned.lock().unwrap().is_some();
+        go.add_permits(1);
+        let (st, done) = task.await.expect("client task");
+        let deadline = t_stop + Duration::from_millis(5000);
+        while returned.lock().unwrap().is_none() && Instant::now() < deadline { tokio::time::sleep(Duration::from_millis(10)).await; }
+        let ret = *returned.lock().unwrap();
+        let mut why = vec![];
+        if !is_ready { why.push("set-up: the client did not reach Login Start".into()); }
+        if st != Stage::Transferred { why.push(format!("the in-flight client cooperated after ctrl-c but ended at {st:?} without its Transfer")); }
+        if early || ret.is_some_and(|r| r + Duration::from_millis(50) < done) { why.push("passage::start returned while the in-flight session was still running".into()); }
+        if ret.is_none() { why.push("passage::start had not returned 5 s after ctrl-c".into()); }
+        let early_flag = early || ret.is_some_and(|r| r + Duration::from_millis(50) < done);
+        Case { request: "c17.run inflight=1 late=0 stages=mid-login open_after=0 via=app".into(), observed: format!("late=0 early_return={} returned={}", u8::from(early_flag), u8::from(ret.is_some())),
+            oracle: if why.is_empty() { None } else { Some(why.join("; ")) }, class: "app:ctrl-c".into() }
+    })
+}
+
 fn wait_listening_once(port: u16) -> bool {
     let needle = format!(":{port:04X}");
     std::fs::read_to_string("/proc/net/tcp").map(|t| t.lines().skip(1).any(|l| { let f: Vec<&str> = l.split_whitespace().collect(); f.len() > 3 && f[1].ends_with(&needle) && f[3] == "0A" })).unwrap_or(false)
@@ -940,12 +1007,15 @@ pub fn run_c17(a: &Args) {
     let mut reqs: Vec<String> = read_corpus(&a.corpus).into_iter().filter(|l| l.starts_with("c17.")).collect();
     let mut rng = Rng::new(a.seed);
     reqs.push(format!("c17.race trials={}", if a.thorough { 64 } else { 16 }));
+    // the application entry point: ctrl-c (SIGINT) while a session is in flight
+    reqs.push("c17.app".into());
     // a session that legitimately outlasts the DEFAULT connection timeout (10 s) under a longer configured one
     reqs.push("c17.run inflight=2 late=1 stages=backend,mid-login open_after=11500 timeout=15000".into());
     for _ in 0..a.cases {
         let k = rng.below(5) as usize;
-        let st: Vec<&str> = (0..k).map(|_| *rng.pick(&["accepted", "mid-login", "backend", "backend", "transfer"])).collect();
-        reqs.push(format!("c17.run inflight={k} late={} stages={} open_after={}", rng.below(3), if st.is_empty() { "-".to_string() } else { st.join(",") }, rng.pick(&[0u64, 0, 300, 600])));
+        let proxy = rng.chance(1, 3);
+        let st: Vec<&str> = (0..k).map(|_| *rng.pick(if proxy { &["accepted", "pre-header", "pre-header", "mid-login", "backend", "transfer"][..] } else { &["accepted", "mid-login", "backend", "backend", "transfer"][..] })).collect();
+        reqs.push(format!("c17.run inflight={k} late={} stages={} open_after={} proxy={} restart={}", rng.below(3), if st.is_empty() { "-".to_string() } else { st.join(",") }, rng.pick(&[0u64, 0, 300, 600]), u8::from(proxy), u8::from(rng.chance(1, 3))));
     }
     let cases = retry_failed(par_cases(a.seed, reqs.len(), |i, _| c17_case(&reqs[i])), &reqs, c17_case);
     write_cases(&a.out, &cases).expect("write cases");
